@@ -48,6 +48,14 @@ def main(pid):
     deep = {line for line in r.out.splitlines() if line.startswith('<<"L", ')}
     ev.cov["tlc_runs"].append({"name": "MC_Filter_sim (tlc -simulate)", "deep_lists": len(deep), "constants": "P=6 MaxNon=4 MaxRef=3 depth 7"})
     del r
+    # every deep layout (3 non-reference + 2 reference citations) of the unit-span instance: exhaustive, small
+    r = run_tlc("MC_Filter", "MC_Filter_unit.cfg", timeout=900)
+    tlc_must_pass(r, "MC_Filter_unit")
+    ev.add_tlc("MC_Filter_unit", r, "P=4 MaxNon=3 MaxRef=2, unit non-reference spans, full spans {s, s-1, 0} x {e, P}")
+    unit = {line for line in r.out.splitlines() if line.startswith('<<"L", ')}
+    ev.cov["unit_instance_deep_lists"] = len(unit)
+    deep |= unit
+    del r
     lists += [json.loads(json.loads(line[7:-2])) for line in sorted(deep)]
     obs = vlib.impl_map("drv_extract", "run_filter_lists", [x["l"] for x in lists])
     traces = [{"kind": "list", "l": x["l"], "once": o["once"], "twice": o["twice"], "raised": o["raised"]}
@@ -65,7 +73,7 @@ def main(pid):
     if not thorough:
         rnd.shuffle(docs)
         docs = docs[:5000]
-    docs = C03_DOCS + docs + list(gendocs.random_docs(vlib.seed(), 8000 if thorough else 2500, kmin=3, kmax=8))
+    docs = C03_DOCS + gendocs.reference_docs() + docs + list(gendocs.random_docs(vlib.seed(), 8000 if thorough else 2500, kmin=3, kmax=8))
     docs = [d for d in dict.fromkeys(docs) if d.strip()]
     dobs = vlib.impl_map("drv_extract", "run_docs", [{"text": d, "tok": "aho"} for d in docs], common={"merge": True})
     for o in dobs:
